@@ -3,7 +3,8 @@ import Enc.Lemmas.ThriftRoundTripAux
 /-!
 C13, second half (compact protocol), level 4: from the per-field acceptance to the struct.
 
-  * `Accepts strict t x`   the acceptance statement for one type / value (what the main induction proves)
+  * `Accepts strict d t x` the acceptance statement for one type / value at decoder depth `d` (what the main induction
+                           proves, for every `d` with `d + nest t ≤ maxDepth`)
   * `plain_ok`             a plain default value is in the universe and reads back as the zero value
   * `conf_declared`, `conf_cover`, `conf_required`, `conf_ids_sublist`   the records of `ConfFields fs vs rs` against the
                            field table `fieldDescs fs`
@@ -13,14 +14,14 @@ namespace Enc.Lemmas.ThriftAccept
 open Enc Enc.Model.Thrift Enc.Lemmas.ThriftPrim Enc.Lemmas.ThriftSkip Enc.Lemmas.ThriftSpec
 open Enc.Lemmas.ThriftRoundTrip
 
-/-- acceptance of every conformant encoding of `x : t` (decoder started on the zero value) -/
-def Accepts (strict : Bool) (t : Ty) (x : Val) : Prop :=
+/-- acceptance of every conformant encoding of `x : t` (decoder started on the zero value, at nesting depth `d`) -/
+def Accepts (strict : Bool) (d : Nat) (t : Ty) (x : Val) : Prop :=
   tyOK t = true → valOK t x = true → RTS t x = true → ∀ body, Conf t x body →
     ∀ (fuel : Nat) (rest : Bytes), body.length + depth t ≤ fuel →
-      decode .compact strict fuel t (body ++ rest) (zeroOf t) = .ok (norm t x, rest)
+      decode .compact strict d fuel t (body ++ rest) (zeroOf t) = .ok (norm t x, rest)
 
-def AllAccept (strict : Bool) : Fields → Vals → Prop
-  | .cons _ _ _ t rest, .cons x vs => Accepts strict t x ∧ AllAccept strict rest vs
+def AllAccept (strict : Bool) (d : Nat) : Fields → Vals → Prop
+  | .cons _ _ _ t rest, .cons x vs => Accepts strict d t x ∧ AllAccept strict d rest vs
   | _, _ => True
 
 theorem isReal_ofSpec (t : Spec.Thrift.TT) : isReal (ofSpec t) = true := by cases t <;> rfl
@@ -186,11 +187,11 @@ theorem field_target (tag : String) (t : Ty) (x : Val) (id : Int) (req en : Bool
     rw [normFields_cons, hem]
 
 /-- the value step of one written field: enum-tagged int32 fields through `rI32`, every other field through `decode` -/
-theorem field_valstep (strict : Bool) (k : Nat) (tag : String) (t : Ty) (x : Val) (id : Int) (req en : Bool)
+theorem field_valstep (strict : Bool) (d : Nat) (k : Nat) (tag : String) (t : Ty) (x : Val) (id : Int) (req en : Bool)
     (body : Bytes) (hp : Spec.Thrift.tagOf tag = some (id, req, en)) (ht : tyOK t = true) (hx : valOK t x = true)
-    (hen : enumOK tag t = true) (hR : RTS t x = true) (hacc : Accepts strict t x) (hbody : FieldBodyC en t x body)
+    (hen : enumOK tag t = true) (hR : RTS t x = true) (hacc : Accepts strict d t x) (hbody : FieldBodyC en t x body)
     (D : Nat) (hD : depth t ≤ D) :
-    ValStep .compact strict { pos := k, id := id, required := req, enum := en, ty := t } body D (zeroOf t)
+    ValStep .compact strict d { pos := k, id := id, required := req, enum := en, ty := t } body D (zeroOf t)
       (norm t x) := by
   cases en with
   | true =>
@@ -214,13 +215,13 @@ theorem field_valstep (strict : Bool) (k : Nat) (tag : String) (t : Ty) (x : Val
 
 /-- every record of a conformant record list is declared: descriptor, position (relative to the offset `k`), wire type,
 bool value, value step towards `normFields` -/
-theorem conf_declared (strict : Bool) : ∀ (fs : Fields) (vs : Vals) (k : Nat) (rs : List Spec.Thrift.FRec),
-    fieldsOK fs = true → valsOK fs vs = true → RTSFields fs vs = true → AllAccept strict fs vs →
+theorem conf_declared (strict : Bool) (d : Nat) : ∀ (fs : Fields) (vs : Vals) (k : Nat) (rs : List Spec.Thrift.FRec),
+    fieldsOK fs = true → valsOK fs vs = true → RTSFields fs vs = true → AllAccept strict d fs vs →
     ConfFields fs vs rs →
-    ∀ f ∈ rs, ∃ d ∈ fieldDescs.go fs k, ∃ n, d.pos = k + n ∧ d.id = f.id ∧ typeOf d.ty = ofSpec f.t ∧
+    ∀ f ∈ rs, ∃ fd ∈ fieldDescs.go fs k, ∃ n, fd.pos = k + n ∧ fd.id = f.id ∧ typeOf fd.ty = ofSpec f.t ∧
         n < (normFields fs vs).length ∧
-        (f.t = .bool → wrapPtr d.ty (.bool f.isTrue) = Vals.get (normFields fs vs) n) ∧
-        ValStep .compact strict d f.body (depthFields fs) (Vals.get (zeroFields fs) n)
+        (f.t = .bool → wrapPtr fd.ty (.bool f.isTrue) = Vals.get (normFields fs vs) n) ∧
+        ValStep .compact strict d fd f.body (depthFields fs) (Vals.get (zeroFields fs) n)
           (Vals.get (normFields fs vs) n)
   | .nil, vs, _, rs, _, _, _, _, hc => by
     simp only [ConfFields] at hc
@@ -233,19 +234,19 @@ theorem conf_declared (strict : Bool) : ∀ (fs : Fields) (vs : Vals) (k : Nat) 
     simp only [Bool.and_eq_true] at hR
     obtain ⟨⟨hRrest, _⟩, hRfield⟩ := hR
     obtain ⟨hacc, hallrest⟩ := hall
-    have ih := fun rs' hc' => conf_declared strict rest vr (k + 1) rs' hok.2 hv.2 hRrest hallrest hc'
+    have ih := fun rs' hc' => conf_declared strict d rest vr (k + 1) rs' hok.2 hv.2 hRrest hallrest hc'
     -- a record of the tail
     have tail : ∀ rs', ConfFields rest vr rs' → ∀ f ∈ rs',
-        ∃ d ∈ fieldDescs.go (.cons nm tag e t rest) k, ∃ n, d.pos = k + n ∧ d.id = f.id ∧
-          typeOf d.ty = ofSpec f.t ∧ n < (normFields (.cons nm tag e t rest) (.cons x vr)).length ∧
-          (f.t = .bool → wrapPtr d.ty (.bool f.isTrue) =
+        ∃ fd ∈ fieldDescs.go (.cons nm tag e t rest) k, ∃ n, fd.pos = k + n ∧ fd.id = f.id ∧
+          typeOf fd.ty = ofSpec f.t ∧ n < (normFields (.cons nm tag e t rest) (.cons x vr)).length ∧
+          (f.t = .bool → wrapPtr fd.ty (.bool f.isTrue) =
             Vals.get (normFields (.cons nm tag e t rest) (.cons x vr)) n) ∧
-          ValStep .compact strict d f.body (depthFields (.cons nm tag e t rest))
+          ValStep .compact strict d fd f.body (depthFields (.cons nm tag e t rest))
             (Vals.get (zeroFields (.cons nm tag e t rest)) n)
             (Vals.get (normFields (.cons nm tag e t rest) (.cons x vr)) n) := by
       intro rs' hc' f hf
-      obtain ⟨d, hd, n, h1, h2, h3, h4, h5, h6⟩ := ih rs' hc' f hf
-      refine ⟨d, ?_, n + 1, by omega, h2, h3, ?_, ?_, ?_⟩
+      obtain ⟨fd, hd, n, h1, h2, h3, h4, h5, h6⟩ := ih rs' hc' f hf
+      refine ⟨fd, ?_, n + 1, by omega, h2, h3, ?_, ?_, ?_⟩
       · rw [go_cons]
         cases parseTag tag with
         | none => exact hd
@@ -254,7 +255,7 @@ theorem conf_declared (strict : Bool) : ∀ (fs : Fields) (vs : Vals) (k : Nat) 
       · rw [normFields_cons]; simpa only [Vals.get] using h5
       · rw [normFields_cons, depthFields_cons]
         simp only [zeroFields, Vals.get]
-        exact ValStep_mono _ _ _ _ _ _ _ _ h6 (Nat.le_max_right ..)
+        exact ValStep_mono _ _ _ _ _ _ _ _ _ h6 (Nat.le_max_right ..)
     rcases confFields_cases hc with ⟨_, hc'⟩ | ⟨id, req, en, _, _, hc'⟩ | ⟨id, req, en, body, rs', hp, hw, hb, hrs, hc'⟩
     · exact tail rs hc'
     · exact tail rs hc'
@@ -278,7 +279,7 @@ theorem conf_declared (strict : Bool) : ∀ (fs : Fields) (vs : Vals) (k : Nat) 
           rw [htyp, hbt]; rfl
         · rw [htv, depthFields_cons]
           simp only [zeroFields, Vals.get]
-          exact field_valstep strict k tag t x id req en body hp hok.1.1 hv.1 hok.1.2 hRx hacc hb _
+          exact field_valstep strict d k tag t x id req en body hp hok.1.1 hv.1 hok.1.2 hRx hacc hb _
             (Nat.le_max_left ..)
       · exact tail rs' hc' f hf
 
@@ -387,45 +388,45 @@ theorem conf_ids_sublist : ∀ (fs : Fields) (vs : Vals) (k : Nat) (rs : List Sp
 /-- **struct level.** Started on the zero value, the struct decoder consumes ANY permutation `order` of a conformant
 record list, with any header forms, and yields `normFields fs vs` — the same value as for the canonical encoding —
 having seen every required id. -/
-theorem struct_accept (strict : Bool) (fs : Fields) (vs : Vals) (hok : fieldsOK fs = true)
+theorem struct_accept (strict : Bool) (d : Nat) (fs : Fields) (vs : Vals) (hok : fieldsOK fs = true)
     (hv : valsOK fs vs = true) (hids : idsOK fs = true) (hR : RTSFields fs vs = true)
-    (hall : AllAccept strict fs vs) (rs order : List Spec.Thrift.FRec) (bs : Bytes)
+    (hall : AllAccept strict d fs vs) (rs order : List Spec.Thrift.FRec) (bs : Bytes)
     (hc : ConfFields fs vs rs) (hperm : order.Perm rs) (hs : Stream order 0 bs) (fuel : Nat) (rest : Bytes)
     (hf : bs.length + depthFields fs ≤ fuel) :
-    ∃ seen, decodeStruct .compact strict fuel (fieldDescs fs) (bs ++ rest) (zeroFields fs) 0 0 []
+    ∃ seen, decodeStruct .compact strict d fuel (fieldDescs fs) (bs ++ rest) (zeroFields fs) 0 0 []
           = .ok ((normFields fs vs, seen), rest) ∧
-      (fieldDescs fs).any (fun d => d.required && !seen.contains d.id) = false := by
+      (fieldDescs fs).any (fun fd => fd.required && !seen.contains fd.id) = false := by
   have hdescs : fieldDescs fs = fieldDescs.go fs 0 := rfl
   unfold idsOK at hids
   simp only [Bool.and_eq_true, decide_eq_true_eq, List.all_eq_true] at hids
   obtain ⟨hrange, hnd⟩ := hids
-  have hfind : ∀ d ∈ fieldDescs fs, findById (fieldDescs fs) d.id = some d := findById_of_mem _ hnd
+  have hfind : ∀ fd ∈ fieldDescs fs, findById (fieldDescs fs) fd.id = some fd := findById_of_mem _ hnd
   have hposinj := eq_of_pos_eq _ (hdescs ▸ (go_pos fs 0).1)
-  have hdecl := conf_declared strict fs vs 0 rs hok hv hR hall hc
+  have hdecl := conf_declared strict d fs vs 0 rs hok hv hR hall hc
   have hmem : ∀ g, g ∈ order ↔ g ∈ rs := fun g => hperm.mem_iff
-  have hdec : ∀ f ∈ order, DecRec .compact strict (fieldDescs fs) (zeroFields fs) (normFields fs vs)
+  have hdec : ∀ f ∈ order, DecRec .compact strict d (fieldDescs fs) (zeroFields fs) (normFields fs vs)
       (depthFields fs) (conv f) := by
     intro f hfm
-    obtain ⟨d, hd, n, h1, h2, h3, h4, h5, h6⟩ := hdecl f ((hmem f).mp hfm)
+    obtain ⟨fd, hd, n, h1, h2, h3, h4, h5, h6⟩ := hdecl f ((hmem f).mp hfm)
     rw [← hdescs] at hd
-    have hr := hrange d hd
-    have hpn : d.pos = n := by omega
+    have hr := hrange fd hd
+    have hpn : fd.pos = n := by omega
     rw [h2] at hr
-    refine ⟨hr.1, hr.2, isReal_ofSpec f.t, ofSpec_ne_true f.t, d, ?_, h3, hpn ▸ h4, ?_, ?_⟩
-    · show findById (fieldDescs fs) f.id = some d
-      rw [← h2]; exact hfind d hd
+    refine ⟨hr.1, hr.2, isReal_ofSpec f.t, ofSpec_ne_true f.t, fd, ?_, h3, hpn ▸ h4, ?_, ?_⟩
+    · show findById (fieldDescs fs) f.id = some fd
+      rw [← h2]; exact hfind fd hd
     · intro hb
       rw [hpn]; exact h5 ((ofSpec_eq_bool f.t).mp hb)
     · rw [hpn]; exact h6
   have hnodup : (order.map (·.id)).Nodup := by
     rw [(hperm.map (·.id)).nodup_iff]
     exact (conf_ids_sublist fs vs 0 rs hc).nodup (hdescs ▸ hnd)
-  have hposOf : ∀ f ∈ order, ∃ d ∈ fieldDescs fs, d.id = f.id ∧ posOf (fieldDescs fs) f.id = d.pos := by
+  have hposOf : ∀ f ∈ order, ∃ fd ∈ fieldDescs fs, fd.id = f.id ∧ posOf (fieldDescs fs) f.id = fd.pos := by
     intro f hfm
-    obtain ⟨d, hd, n, _, h2, _⟩ := hdecl f ((hmem f).mp hfm)
+    obtain ⟨fd, hd, n, _, h2, _⟩ := hdecl f ((hmem f).mp hfm)
     rw [← hdescs] at hd
-    refine ⟨d, hd, h2, ?_⟩
-    rw [← h2]; simp [posOf, hfind d hd]
+    refine ⟨fd, hd, h2, ?_⟩
+    rw [← h2]; simp [posOf, hfind fd hd]
   have hpp : order.Pairwise (fun a b => posOf (fieldDescs fs) a.id ≠ posOf (fieldDescs fs) b.id) := by
     have hne : order.Pairwise (fun a b => a.id ≠ b.id) := by
       simpa [List.Nodup, List.pairwise_map] using hnodup
@@ -436,22 +437,22 @@ theorem struct_accept (strict : Bool) (fs : Fields) (vs : Vals) (hok : fieldsOK 
     have : da = db := hposinj da hda db hdb (by omega)
     rw [this] at hia
     exact hne (by rw [← hia, ← hib])
-  have hloop := decodeStruct_stream strict (fieldDescs fs) (zeroFields fs) (normFields fs vs) (depthFields fs) hs
+  have hloop := decodeStruct_stream strict d (fieldDescs fs) (zeroFields fs) (normFields fs vs) (depthFields fs) hs
     0 fuel (zeroFields fs) [] rest hdec hpp (normFields_length fs vs hR).symm (fun _ _ => rfl)
     (fun n hn => by
-      rcases conf_cover fs vs 0 n rs hok hv hc with hz | ⟨f, hfm, d, hd, hid, hpos⟩
+      rcases conf_cover fs vs 0 n rs hok hv hc with hz | ⟨f, hfm, fd, hd, hid, hpos⟩
       · exact hz.symm
       · exfalso
         rw [← hdescs] at hd
         apply hn f ((hmem f).mpr hfm)
-        rw [← hid]; simp [posOf, hfind d hd]; omega)
+        rw [← hid]; simp [posOf, hfind fd hd]; omega)
     hf
   refine ⟨_, hloop, ?_⟩
   rw [List.any_eq_false]
-  intro d hd
+  intro fd hd
   simp only [Bool.and_eq_true, Bool.not_eq_true', not_and, Bool.not_eq_false]
   intro hreq
-  have := conf_required fs vs 0 rs hR hc d (hdescs ▸ hd) hreq
+  have := conf_required fs vs 0 rs hR hc fd (hdescs ▸ hd) hreq
   rw [List.mem_map] at this
   obtain ⟨f, hfm, hfid⟩ := this
   simp only [List.append_nil, List.contains_eq_mem, List.mem_reverse, List.mem_map, decide_eq_true_eq]
